@@ -74,15 +74,16 @@ func FloatOrdinary(r *h.Rand) float64 {
 
 // GeomOpts steers the geometry grammar.
 type GeomOpts struct {
-	Depth      int                   // maximum nesting of collections below this level
-	Float      func(*h.Rand) float64 // coordinate source
-	NilSlices  bool                  // values and members may be nil slices
-	Empty      bool                  // values and members may be empty (non-nil) slices
-	EmptyParts bool                  // zero-vertex rings/lines inside a non-empty polygon / multi line string / multi polygon
-	RingBound  bool                  // include orb.Ring and orb.Bound
-	MaxLen     int                   // maximum number of elements per slice level (default 4)
-	ClosedRing bool                  // rings are closed (first == last) and have >= 4 vertices
-	Huge       bool                  // rarely (1 in 300 slice levels) a level has hundreds of elements
+	Depth         int                   // maximum nesting of collections below this level
+	Float         func(*h.Rand) float64 // coordinate source
+	NilSlices     bool                  // values and members may be nil slices
+	Empty         bool                  // values and members may be empty (non-nil) slices
+	EmptyParts    bool                  // zero-vertex rings/lines inside a non-empty polygon / multi line string / multi polygon
+	RingBound     bool                  // include orb.Ring and orb.Bound
+	MaxLen        int                   // maximum number of elements per slice level (default 4)
+	ClosedRing    bool                  // rings are closed (first == last) and have >= 4 vertices
+	Huge          bool                  // rarely (1 in 300 slice levels) a level has hundreds of elements
+	SharedMembers bool                  // a collection member is sometimes the very same value as an earlier member (for read-only functions)
 }
 
 var hugeSizes = []int{127, 128, 129, 255, 256, 257, 258, 511, 512, 513, 1023, 1024, 1025}
@@ -211,6 +212,9 @@ func (o *GeomOpts) OfKind(r *h.Rand, kind int, depth int) orb.Geometry {
 		out := make(orb.Collection, n)
 		for i := range out {
 			out[i] = o.Geometry(r, depth-1)
+			if o.SharedMembers && i > 0 && r.P(1, 8) {
+				out[i] = out[r.Intn(i)] // the very same value (same backing memory) as an earlier member
+			}
 		}
 		return out
 	default:
